@@ -22,5 +22,7 @@ def check(run, tier):
     w = {"Activate": 3, "Revoke": 3, "Destroy": 2, "Encrypt": 2, "Decrypt": 1, "Sign": 1.5, "SignatureVerify": 1,
          "MAC": 2, "Get": 2, "DeriveKey": 1.5, "Locate": 0.3, "Attr": 0.5, "Query": 0.1, "DiscoverVersions": 0.1}
     traces += E.random_histories(run, n, m, common.SEED, genkw={"weights": w, "users": ("alice",)})
+    # text that is the identifier of no object although a lenient store would read it as one ('01', ' 1', '1.0' ...)
+    traces += E.alias_identifier_traces(quick, prefix="c04alias")
     E.judge(run, traces, only=ONLY, name="c04")
     E.summarise(run, traces)
